@@ -120,7 +120,18 @@ namespace
             registry().reset();
             registry().sigprefix = "C06";
             tail = "initial/-";
-            for (int i = 0; i < 3; ++i) { slot[i].prepare(env, env.next()); new (slot[i].ptr()) xtl::any(); }
+            for (int i = 0; i < 3; ++i)
+            {
+                slot[i].prepare(env, env.next());
+                new (slot[i].ptr()) xtl::any();
+                if (env.below(4) != 0)
+                {
+                    int k = static_cast<int>(env.below(NT));
+                    uint64_t id = fresh();
+                    with_type(k, [&](auto K) { auto val = TypeOf<decltype(K)::value>::make(id); slot[i].get() = val; });
+                    model[i].empty = false; model[i].type = k; model[i].id = id;
+                }
+            }
         }
         void teardown() { for (int i = 0; i < 3; ++i) { slot[i].get().~any(); slot[i].unguard(); } }
         [[noreturn]] void viol(const char* cls, const char* oracle, const std::string& msg) { fail(cls, std::string("C06/") + oracle + "/" + tail, msg); }
